@@ -134,6 +134,7 @@ func runGio(c *Ctx) {
 		name := core.FuncName(d.Obj)
 		c.Walk("R15", &core.Config{Follow: samePkgFollow(d.Pkg.PkgPath)}, core.Entry{Decl: d}, func(p *core.Path) {
 			g := prepare(c, p)
+			added, wrapped := false, -1
 			for i, ev := range p.Events {
 				if isAtomicCall(ev, "Add") {
 					arg := core.ExprString(ev.Call.Args[0])
@@ -157,7 +158,28 @@ func runGio(c *Ctx) {
 					}
 					a.note("R15", name+"/adds-returned-count", ev.Pos, !isCount, "the total grows by the count that is returned", "the total grows by "+arg+", not by the count the call returns", p)
 					a.requireGuard("R15", name+"/adds-positive-count", g, i, false, lt("0", cnt), "adding to the total")
+					added = true
 				}
+				if ev.Kind == core.KCall && ev.Callee != nil && ev.Frame.Parent == nil && (ev.Callee.Name() == "Read" || ev.Callee.Name() == "Write") && ev.Callee.Pkg() != nil && ev.Callee.Pkg().Path() == "io" {
+					wrapped = i
+				}
+			}
+			// ⇔: a path that called the wrapped stream and does not add has shown the count not positive
+			// (whatever the error: a short read/write transfers bytes and reports an error)
+			if wrapped >= 0 && !added && p.End == core.EndReturn {
+				cnt := "?n"
+				if rs := d.Decl.Type.Results; rs != nil && len(rs.List) > 0 && len(rs.List[0].Names) > 0 {
+					if res0, _ := d.Pkg.TypesInfo.Defs[rs.List[0].Names[0]].(*types.Var); res0 != nil {
+						cnt = c.Role(res0)
+					}
+				}
+				ok, _ := implies(g.litsBefore(len(p.Events), false), fnot(lt("0", cnt)))
+				if !ok {
+					ok, _ = implies(g.litsBefore(len(p.Events), false), lt("4294967295", cnt))
+				}
+				a.note("R15", name+"/adds-positive-count/complete", p.Events[wrapped].Pos, !ok,
+					"a path that called the wrapped stream and does not add to the total has shown the returned count not positive (or out of range)",
+					"a path returns the count of the wrapped call without adding it to the total although the count may be positive (a short transfer that also reports an error): the total falls behind the bytes transferred", p)
 			}
 		})
 		a.expect("R15", name+"/adds-returned-count", 1, "total.Add in "+fn)
@@ -718,6 +740,43 @@ func runGcodec(c *Ctx) {
 			}
 		})
 		a.expect("R14a", name+"/extend-within-capacity", 1, "data = data[:n] in PadInPlace")
+		// the trailer (the padding length byte) is the last thing written into the buffer: a zeroing
+		// store, clear() or copy() after it would cover the trailer again
+		c.Walk("R14a", &core.Config{Follow: samePkgFollow(d.Pkg.PkgPath)}, core.Entry{Decl: d}, func(p *core.Path) {
+			if p.End != core.EndReturn {
+				return
+			}
+			lastKind, lastPos := "", token.NoPos
+			sawTrailer := false
+			for _, ev := range p.Events {
+				switch {
+				case ev.Kind == core.KAssign && !ev.FieldInit:
+					ix, ok := unparen(ev.Lhs).(*ast.IndexExpr)
+					if !ok {
+						continue
+					}
+					if bv := identVar(ix.X, ev.Frame); bv == nil || bv.IsField() {
+						continue
+					}
+					if _, isSl := ev.Frame.Info().TypeOf(ix.X).Underlying().(*types.Slice); !isSl {
+						continue
+					}
+					if tv, isC := ev.Frame.Info().Types[unparen(ev.Rhs)]; ev.Rhs != nil && isC && tv.Value != nil {
+						lastKind, lastPos = "a constant store", ev.Pos
+					} else {
+						lastKind, lastPos = "trailer", ev.Pos
+						sawTrailer = true
+					}
+				case ev.Kind == core.KCall && (ev.Builtin == "clear" || ev.Builtin == "copy"):
+					lastKind, lastPos = ev.Builtin+"()", ev.Pos
+				}
+			}
+			if sawTrailer {
+				a.note("R14a", name+"/trailer-written-last", lastPos, lastKind != "trailer",
+					"the padding length byte is the last write into the buffer on every path",
+					"after the padding length byte was stored the buffer is written again by "+lastKind+": a zeroing that runs to the end of the extension wipes the trailer, and UnpadInPlace then strips a single byte", p)
+			}
+		})
 	}
 	// --- commonprefix: TrimPrefix removes what Prefix computes — a path that does not consult Prefix has
 	// shown the argument list empty
